@@ -4,7 +4,7 @@
    Print Assumptions.  Model: Model/Value.v (interp/value.go, the twelve comparison
    opcodes of interp/vm.go, strconv.ParseFloat's syntax and rounding contract). *)
 From Verif Require Import Lib.Base Lib.Dyadic Lib.Utf8 Model.Value
-  Proofs.ValueCmp Proofs.ValueStr Proofs.ValueScan Proofs.ValueGrammar.
+  Proofs.ValueCmp Proofs.ValueStr Proofs.ValueScan Proofs.ValueGrammar Proofs.ValueAccept.
 
 (* ================================================================== *)
 (* 1. number -> string                                                 *)
@@ -67,6 +67,15 @@ Print Assumptions C05_prefix_is_longest.
 Theorem C05_prefix_scan_no_panic : forall s, scan_prefix s <> PSPanic.
 Proof. exact scan_prefix_no_panic. Qed.
 Print Assumptions C05_prefix_scan_no_panic.
+
+(* the text the scanner hands to strconv.ParseFloat is always syntactically accepted by it: the
+   value of parseFloatPrefix is the value strconv assigns to the consumed prefix (never the
+   "syntax error => 0" fallback) *)
+Theorem C05_scan_text_accepted : forall s start c patch,
+  scan_prefix s = PSNum start c patch ->
+  exists d, go_parse_desc (scan_text c patch) = Some d /\ parse_float_prefix s = Ok (fst (desc_value d)).
+Proof. exact scan_text_accepted. Qed.
+Print Assumptions C05_scan_text_accepted.
 
 Example C05_ex_scan :
   (* "  -12.5e2xyz" -> "-12.5e2" from offset 2; "0x1p-2z" -> "0x1p-2"; "0x" -> "0"; "0xg" -> zero;
@@ -143,6 +152,32 @@ Proof.
   - vm_compute in Hx. discriminate.
 Qed.
 Print Assumptions C05_numeric_text_accepted_refuted.
+
+(* PARTIAL: a grammatical input text (ASCII blanks around it) is a number for parseFloat or fails
+   with ErrRange - it is never a syntax error; so the range overflow is the only way a
+   numeric-looking text ends up compared as a string *)
+Theorem C05_numeric_text_accepted_partial : forall s,
+  trim_space s = ascii_trim s -> awk_numeral (ascii_trim s) ->
+  (exists x, parse_float s = PFOk x) \/ (exists v, parse_float s = PFErrRange v).
+Proof. exact numeric_text_accepted_partial. Qed.
+Print Assumptions C05_numeric_text_accepted_partial.
+
+(* FULL STATEMENT of the converse ("compares numerically ONLY IF it looks like a number"): what
+   parseFloat accepts is, after removing ASCII blanks, in the grammar or [sign] inf/infinity/nan *)
+Definition C05_accepted_is_numeric_full_statement : Prop :=
+  forall s x, parse_float s = PFOk x -> awk_numeral (ascii_trim s) \/ awk_special (ascii_trim s).
+
+(* FALSE on the pinned tree (F-C05-1 again): NBSP "12" *)
+Theorem C05_accepted_is_numeric_refuted : ~ C05_accepted_is_numeric_full_statement.
+Proof. intro H. destruct nbsp12_accepted_not_numeric as [s [x [Hp Hn]]]. exact (Hn (H s x Hp)). Qed.
+Print Assumptions C05_accepted_is_numeric_refuted.
+
+(* PARTIAL: true for every string whose Unicode and ASCII trimming coincide *)
+Theorem C05_accepted_is_numeric_partial : forall s x,
+  trim_space s = ascii_trim s -> parse_float s = PFOk x ->
+  awk_numeral (ascii_trim s) \/ awk_special (ascii_trim s).
+Proof. exact accepted_is_numeric. Qed.
+Print Assumptions C05_accepted_is_numeric_partial.
 
 Example C05_ex_overflow_incoherent :
   (* "1e400": a string for comparisons (range error), +inf for arithmetic; "-0x1p1024" likewise *)
